@@ -75,7 +75,9 @@ func decodeErrorType(s string) v1.ErrorType {
 		return v1.ErrExec
 	case string(v1.ErrBadResponse):
 		return v1.ErrBadResponse
-	case string(v1.ErrServer):
+	case string(v1.ErrServer), "unavailable", "internal":
+		// Prometheus itself reports 503 "unavailable" (e.g. TSDB not ready) and 500 "internal",
+		// client_golang has no constants for these. Both mean the server is unable to answer.
 		return v1.ErrServer
 	case string(v1.ErrClient):
 		return v1.ErrClient
